@@ -3,6 +3,7 @@
 A task returns a digest of everything it received, so a delivered value identifies exactly which
 arguments arrived in which positions.  Hooks (set per run by the harness) observe starts and inject faults.
 """
+import zlib
 import collections
 import hashlib
 
@@ -81,4 +82,8 @@ class make:
         for i in range(self.nyield):
             if on_yield is not None:
                 on_yield(self.tag, i)
+            if i >= self.k and (zlib.crc32(self.tag.encode()) & 1) == 0:
+                # half of the generators that yield more than their node declares yield None as their first surplus value
+                yield None
+                continue
             yield self._val(base, i)
